@@ -1,7 +1,7 @@
 --------------------------- MODULE MC_C07_gateway ---------------------------
 (* C07 on the gateway: call_contract and validate_message act for `caller` only   *)
 (* with that address's authorisation, or when the caller is the calling contract.   *)
-EXTENDS Gateway, Json, SequencesExt
+EXTENDS Gateway, Json, SequencesExt, AuthShapes
 VARIABLE st
 MC_Sets == [s1 |-> [keys |-> <<1, 2>>, weights |-> <<1, 1>>, threshold |-> 2, nonce |-> 0]]
 MC_Keys == [k1 |-> [chain |-> "c", id |-> "1"], k2 |-> [chain |-> "c", id |-> "2"]]
@@ -21,6 +21,12 @@ Acts(s) ==
     \cup {[name |-> "CallContract", caller |-> "gateway", via |-> "direct", through |-> "none", auth |-> au,
            chain |-> "ethereum", addr |-> "0xabc", payload |-> "p1"] : au \in {{}, {"mallory"}}}
     \cup {[name |-> "ValidateMessage", caller |-> "gateway", key |-> "k1", src |-> "sA", ph |-> "p1", via |-> "direct", auth |-> au] : au \in {{}, {"mallory"}}}
+    \* an entry that names the entry point but keeps only the arguments `keepArgs` (what require_auth_for_args with a subset of the
+    \* arguments would ask for) is not an authorisation of this exact call
+    \cup {[name |-> "CallContract", caller |-> "alice", via |-> "direct", through |-> "none", auth |-> {}, scopedAuth |-> {"alice"}, keepArgs |-> ks,
+           chain |-> "ethereum", addr |-> "0xabc", payload |-> "p1"] : ks \in ProperKeeps(4)}
+    \cup {[name |-> "ValidateMessage", caller |-> "app1", key |-> "k1", src |-> "sA", ph |-> "p1", via |-> "direct", auth |-> {},
+           scopedAuth |-> {"app1"}, keepArgs |-> ks] : ks \in ProperKeeps(5)}
     \cup {[name |-> "CallContract", caller |-> "pr1", via |-> "self", through |-> "none", auth |-> {},
            chain |-> "ethereum", addr |-> "0xabc", payload |-> "p1"]}
 InitState == [Install(Blank("owner0", "op0", 0), "s1") EXCEPT !.deployed = TRUE]
